@@ -280,6 +280,76 @@ def check_ndjson(model, proto, rng, quick, stats, viols, seedinfo):
             return
 
 
+def check_cpp_ndjson(model, cm, proto, rng, quick, stats, viols, seedinfo):
+    """C++ NDJSON reader (line reader with look-ahead): relay NDJSON -> NDJSON with CopyTo buffer size 1; the lines
+    emitted before the exception are the values it delivered."""
+    env, ns = model.env, model.pkg.namespace
+    codec = R.Codec(env)
+    schema = model.schema(proto)
+    vals = sw.gen_values(env, ns, proto, rng, finite=True, items=(0, 4))
+    text = codec.encode_ndjson(proto, ns, schema, vals)
+    raw = text.encode("utf-8")
+    flat = sw.flat_values(proto, vals)
+    n = len(raw)
+    hdr_end = raw.index(b"\n") + 1
+    line_starts = [k + 1 for k, b in enumerate(raw) if b == 10]
+    cand = set(range(0, min(n, 4))) | {hdr_end - 1, hdr_end} | {rng.randint(0, hdr_end) for _ in range(3)}
+    for ls in line_starts:
+        cand.update({ls - 2, ls - 1, ls, ls + 1})
+    cand.update(rng.randint(hdr_end, n - 1) for _ in range(16 if quick else 200))
+    cuts = sorted(c for c in cand if 0 <= c < n)
+    nb = cm.copyto[proto.name]
+    runs = [{"proto": proto.name, "op": "relay", "in_fmt": "ndjson", "out_fmt": "ndjson", "input": 0, "batch": [1] * nb}]
+    for p in cuts:
+        runs.append({"proto": proto.name, "op": "relay", "in_fmt": "ndjson", "out_fmt": "ndjson", "input": 0, "batch": [1] * nb, "cut": p,
+                     "chunk_mode": rng.choice([0, 0, 3, 2]), "chunk_seed": rng.randint(1, 1 << 30)})
+    results = cm.run_plan([raw], runs, timeout=240)
+    stats["runs"] = stats.get("runs", 0) + len(runs)
+    base = results[0]
+    ok = base is not None and not base.get("crashed") and base.get("ok")
+    if ok:
+        try:
+            ok = not sw.flat_equal(env, ns, proto, flat, ndjson_lines_to_flat(codec, proto, ns, bytes.fromhex(base["out"]).decode("utf-8")), True)
+        except Exception:
+            ok = False
+    if not ok:
+        stats["cpp_ndjson_baseline_unreadable(skipped)"] = stats.get("cpp_ndjson_baseline_unreadable(skipped)", 0) + 1
+        return
+    stats["cpp_ndjson_streams"] = stats.get("cpp_ndjson_streams", 0) + 1
+    for p, res in zip(cuts, results[1:]):
+        cls = "ndjson_cut_on_line_boundary" if p in line_starts else ("ndjson_cut_in_header" if p < hdr_end else "ndjson_cut_inside_line")
+        stats["cpp_" + cls] = stats.get("cpp_" + cls, 0) + 1
+        stats["cpp_ndjson_cuts"] = stats.get("cpp_ndjson_cuts", 0) + 1
+        if res is None:
+            continue
+        d = _doc(model, proto, vals, None, p, "whole", "ndjson", seedinfo)
+        d["lang"] = "cpp"
+        if res.get("crashed"):
+            viols.append(({"class": "reader_hangs_on_truncated_stream" if res.get("hang") else "reader_crashed_on_truncated_stream", "lang": "cpp", "format": "ndjson", "position_class": cls}, d))
+            return
+        if res["ok"]:
+            complete = False
+            try:
+                codec.decode_ndjson(proto, ns, raw[:p].decode("utf-8"), schema)
+                complete = True
+            except (R.Truncated, R.Malformed, UnicodeDecodeError, ValueError, KeyError, TypeError):
+                pass
+            if complete:
+                stats["ndjson_prefix_is_complete_document"] = stats.get("ndjson_prefix_is_complete_document", 0) + 1
+                viols.append(({"class": "ndjson_prefix_is_complete_document", "format": "ndjson"}, d))
+                continue
+            viols.append(({"class": "truncation_not_reported", "lang": "cpp", "format": "ndjson", "position_class": cls}, d))
+            return
+        try:
+            got = ndjson_lines_to_flat(codec, proto, ns, bytes.fromhex(res["out"]).decode("utf-8", "replace"))
+            why = sw.is_prefix(env, ns, proto, flat, got, True)
+        except Exception as e:  # noqa
+            why = "values emitted before the error are not decodable: %r" % (e,)
+        if why:
+            viols.append(({"class": "wrong_value_before_error", "lang": "cpp", "format": "ndjson", "position_class": cls, "detail": why[:200]}, d))
+            return
+
+
 def _uv(v):
     b = bytearray()
     R.put_uvarint(b, v)
@@ -319,6 +389,7 @@ def model_task(task, ybin, root):
                 check_ndjson(model, proto, r.fork("nd"), quick, stats, viols, task)
                 if cm is not None:
                     check_cpp(model, cm, proto, r.fork("cpp"), quick, stats, viols, task)
+                    check_cpp_ndjson(model, cm, proto, r.fork("cppnd"), quick, stats, viols, task)
                 cases.append((["c16", i, proto.name, rep], stats.get("runs", 0) - before > 2))
         samples.append({"model_index": i, "protocols": [M.render_def(p, None, 0) for p in model.protocols()][:1], "runs": stats.get("runs", 0)})
     finally:
@@ -343,6 +414,17 @@ def replay_doc(doc, ybin, root):
         vals, parts = sw.unpack(doc["values"]), sw.unpack(doc["partitions"])
         flat = sw.flat_values(proto, vals)
         cls = doc["violation"]["class"]
+        if doc.get("lang") == "cpp" and doc["format"] == "ndjson":
+            cm = C.CppModel(model.dir)
+            raw = codec.encode_ndjson(proto, ns, model.schema(proto), vals).encode("utf-8")
+            res = cm.run_plan([raw], [{"proto": proto.name, "op": "relay", "in_fmt": "ndjson", "out_fmt": "ndjson", "input": 0, "batch": [1] * cm.copyto[proto.name], "cut": doc["cut"]}])[0]
+            if res.get("crashed"):
+                return cls.startswith("reader_"), res.get("stderr", "")[-300:]
+            if res["ok"]:
+                return cls in ("truncation_not_reported", "ndjson_prefix_is_complete_document"), "relay completed without error on the truncated stream"
+            got = ndjson_lines_to_flat(codec, proto, ns, bytes.fromhex(res["out"]).decode("utf-8", "replace"))
+            why = sw.is_prefix(env, ns, proto, flat, got, True)
+            return bool(why) and cls == "wrong_value_before_error", why or "error reported: %s" % res.get("what")
         if doc.get("lang") == "cpp":
             cm = C.CppModel(model.dir)
             data = codec.encode_stream(proto, ns, model.schema(proto), vals, parts)
@@ -380,12 +462,12 @@ def main():
                      "streams (thorough), else every position within 2 bytes of a value boundary, within 16 bytes of k*65536, the whole fixed header, plus a seeded sample; "
                      "delivery chunking drawn per cut; every C++ model and every second other model also carries a protocol whose last step is one 70-330 KiB vector of "
                      "fixed-size numbers (bulk read paths; nothing is read after it); non-trivial = at least 2 cut positions executed; distinct = (model, protocol, repetition)"),
-               real_code="generated Python package (binary.py, ndjson.py, protocols.py, types.py) + shipped _binary.py/_ndjson.py/yardl_types.py under numpy; for every 6th model (2nd in the thorough tier) the generated C++ binary reader + shipped coded_stream.h/serializers.h through a CopyTo relay in the harness",
+               real_code="generated Python package (binary.py, ndjson.py, protocols.py, types.py) + shipped _binary.py/_ndjson.py/yardl_types.py under numpy; for every 6th model (2nd in the thorough tier) the generated C++ binary and NDJSON readers + shipped coded_stream.h / serializers.h / ndjson headers through CopyTo relays in the harness",
                stubbed="C++ nd-array header and date/date.h; streams produced by the independent reference encoder",
                assumptions=["the reference codec follows docs/reference/*.md except int8/uint8 as one raw byte (what every backend does; reported under C01)",
                             "an NDJSON prefix that is itself a complete document of the protocol (cut on a line boundary in a trailing stream) is a by-design finding, listed in known_findings.json"],
                replay_fn=replay_doc, quick_budget=100,
-               fault_keys=("cuts", "ndjson_cuts", "cpp_cuts", "bulk_final_value_streams", "cpp_cut_at_k_times_65536", "cpp_cut_at_k_times_65536_pm1", "cpp_cut_inside_value", "cpp_cut_on_value_boundary", "cut_in_magic", "cut_in_version", "cut_in_schema", "cut_inside_value", "cut_on_value_boundary",
+               fault_keys=("cuts", "ndjson_cuts", "cpp_cuts", "cpp_ndjson_cuts", "cpp_ndjson_cut_on_line_boundary", "cpp_ndjson_cut_inside_line", "cpp_ndjson_cut_in_header", "bulk_final_value_streams", "cpp_cut_at_k_times_65536", "cpp_cut_at_k_times_65536_pm1", "cpp_cut_inside_value", "cpp_cut_on_value_boundary", "cut_in_magic", "cut_in_version", "cut_in_schema", "cut_inside_value", "cut_on_value_boundary",
                            "cut_at_k_times_65536", "cut_at_k_times_65536_pm1", "ndjson_cut_on_line_boundary", "ndjson_cut_inside_line", "ndjson_cut_in_header"))
 
 
